@@ -1095,3 +1095,49 @@ impl FreeList {
         &mut self.data[idx]
     }
 }
+
+/// Verification hook H6 (compiled only with `--cfg egglog_verif`; add-only, no behaviour change):
+/// plain-integer entry points to the private index-construction algorithms of this module.
+#[cfg(egglog_verif)]
+pub mod verif_hooks {
+    use super::{merge2_into, radix_passes_for, radix_sort_slice_by_value};
+    use crate::{common::Value, numeric_id::NumericId, offsets::RowId};
+
+    /// `radix_passes_for(max)`.
+    pub fn radix_passes(max: u32) -> u32 {
+        radix_passes_for(max)
+    }
+
+    /// `radix_sort_slice_by_value` on a copy of `pairs` ((value, row id) as plain integers), with a
+    /// scratch buffer of `pairs.len() + scratch_extra` entries all holding `scratch_fill`.
+    pub fn radix_sort(
+        pairs: &[(u32, u32)],
+        scratch_extra: usize,
+        scratch_fill: (u32, u32),
+    ) -> Vec<(u32, u32)> {
+        let mut data: Vec<(Value, RowId)> = pairs
+            .iter()
+            .map(|&(v, r)| (Value::new(v), RowId::new(r)))
+            .collect();
+        let mut scratch: Vec<(Value, RowId)> =
+            vec![
+                (Value::new(scratch_fill.0), RowId::new(scratch_fill.1));
+                pairs.len() + scratch_extra
+            ];
+        radix_sort_slice_by_value(&mut data, &mut scratch);
+        data.into_iter().map(|(v, r)| (v.rep(), r.rep())).collect()
+    }
+
+    /// `merge2_into(a, b, &mut out)` with `out` initially holding `prefix`; returns the whole `out`.
+    pub fn merge2(a: &[(u32, u32)], b: &[(u32, u32)], prefix: &[(u32, u32)]) -> Vec<(u32, u32)> {
+        let conv = |s: &[(u32, u32)]| -> Vec<(Value, RowId)> {
+            s.iter()
+                .map(|&(v, r)| (Value::new(v), RowId::new(r)))
+                .collect()
+        };
+        let (a, b) = (conv(a), conv(b));
+        let mut out = conv(prefix);
+        merge2_into(&a, &b, &mut out);
+        out.into_iter().map(|(v, r)| (v.rep(), r.rep())).collect()
+    }
+}
